@@ -98,7 +98,7 @@ def build_case(rng):
 def run(ctx):
     rng = ctx.rng
     N = Names()
-    batch = CoqBatch("C12", ["Base", "Engine", "Events", "EventsModel"], shard=200)
+    batch = CoqBatch("C12", engine.IMPORTS + ["Events", "EventsModel"], shard=120)
     dist = {"family": {}, "failed": 0, "events": 0, "max_depth": 0, "empty_map": 0}
     nontrivial = set()
     samples = []
@@ -152,6 +152,10 @@ def run(ctx):
             xs = c_list([f"(mk_nexec {c_pos(N(nm))} {c_bool(kinds.get(nm) in ('ifelse', 'route') and not (node_failed and j + 1 == k))} "
                          f"{c_bool(node_failed and j + 1 == k)})" for j, (nm, _kw) in enumerate(obs["log"])])
             batch.add(n, 110, "events_eqb", f"run_events {xs} {c_bool(failed)}", c_list([c_event(N, e) for e in evs]))
+            if not missing_error(obs) and not rc.get("select"):
+                # ... and the same stream derived from the ENGINE MODEL's own run of this program (instrumented model)
+                engine.define_case(batch, n, N, g, rc)
+                batch.add(n, 111, "events_eqb", "events_of_result $g $res", c_list([c_event(N, e) for e in evs]))
             dist["emission_checked"] = dist.get("emission_checked", 0) + 1
         # a nested run is parented to the span of the node that launched it (generated wrappers name their graph <node>_g)
         span_node = {e["span"]: e.get("node_name") for e in evs if e["type"] == "NodeStartEvent"}
@@ -174,7 +178,7 @@ def run(ctx):
         ctx.violation("harness", res["error"])
     for (ci, code, mv, real, mexp) in res["failed"]:
         case, evs, status = cases_keep.get(ci, ({}, [], None))
-        if code == 110:
+        if code in (110, 111):
             ctx.violation("correspondence", "the event stream of a synchronous flat run differs from EventsModel.run_events applied to the calls made",
                           case=case, observed={"events": [(e["type"], e["span"], e["parent"], e.get("node_name"), e.get("status")) for e in evs], "model": mv[:800]})
             continue
